@@ -79,7 +79,11 @@ def new_state(schema, req, rid=0):
 
 def build_request(c, schema, plan, doc_opts=None):
     """-> request spec with events drawn and reference expectations computable"""
-    spec, gstats = c01.build_request(c, schema, plan, doc_opts or DOC_OPTS)
+    opts = dict(doc_opts or DOC_OPTS)
+    if c.maybe(30):
+        # a document that also holds query operations; the request names the subscription
+        opts.update(op_types=["subscription", "query"], max_ops=3)
+    spec, gstats = c01.build_request(c, schema, plan, opts, only_type="subscription")
     tree = Tree(schema, c, None)
     root = schema["roots"]["subscription"]
     n = c.weighted([(1, 0), (2, 1), (2, 2), (3, 3), (2, 4)])
